@@ -399,7 +399,7 @@ def explore_file(item):
     out = dict(key=fm.lay.key, states=0, transitions=0, effective=0, viol=[], state_keys=0, depth=0, skipped=False,
                reached_all=False)
     sv = static_violation(fm)
-    if sv and 'no-answer(cpu-budget)' in sv[0]:
+    if sv and ('no-answer(cpu-budget)' in sv[0] or 'TimerError' in sv[0]):
         # the REGEX patterns ran away within the CPU budget: whether the budget is exhausted depends on the speed of
         # the machine, so this is counted as "declined to answer" (not judged), never as a violation
         out['skipped'] = True
@@ -425,7 +425,7 @@ def explore_file(item):
                 hist = h + (tuple(sorted(e)),)
                 out['transitions'] += 1
                 fail = fm.history_failure(hist)
-                if fail and fail[0] == 'exception' and fail[1] == 'no-answer(cpu-budget)':
+                if fail and fail[0] == 'exception' and fail[1] in ('no-answer(cpu-budget)', 'TimerError'):
                     fail = None      # timing dependent: not judged
                 if fail is not None:
                     out['viol'].append(history_violation(fm, hist, fail))
